@@ -6,6 +6,7 @@
 import Miden.Model.Exec
 import Miden.Model.Mast
 import Miden.Model.Options
+import Miden.Spec.Parse
 namespace Miden
 
 def joinNats (l : List Nat) : String := ",".intercalate (l.map toString)
@@ -158,6 +159,15 @@ def handle (line : String) : String :=
     match parseOps rest with
     | some ops => s!"rows {joinNats ((spanRows ops).map Op.code)}"
     | none => "bad-request"
+  | "instr" :: stack :: instrs =>
+    match instrs.mapM Spec.Instr.parse with
+    | none => "bad-request"
+    | some is =>
+      match Spec.semSeq is (pad16 (if stack == "-" then [] else parseNats stack)) with
+      | .ok s => s!"ok stack={joinNats s}"
+      | .error .undefined => "undefined"
+      | .error (.fail (some e)) => s!"err {e.render}"
+      | .error (.fail none) => "err *"
   | ["options", m, e] =>
     match execOptionsNew (if m == "none" then none else m.toNat?) (e.toNat?.getD 0) with
     | some (mx, ex) => s!"ok max={mx} expected={ex}"
